@@ -27,7 +27,8 @@ type RecT struct {
 	// Parallel mode: subtests that call Parallel are suspended until the
 	// parent's function has returned (as package testing does) and then run
 	// concurrently.
-	parallel bool
+	parallel      bool
+	childParallel bool // the T handed to the function of Run gets parallel = childParallel
 
 	mu       sync.Mutex
 	logs     []string
@@ -41,9 +42,13 @@ type RecT struct {
 	wg      sync.WaitGroup
 }
 
-// NewRoot returns a root T. parallel=false runs every subtest to completion inside Run.
+// NewRoot returns a root T. root.Run(name, f) runs f to completion with a T whose
+// own subtests, when parallel is set, pause in Parallel() until that T's
+// Release is called (after f - i.e. RunT - has returned, as package testing
+// does) and then run concurrently; with parallel=false every subtest runs to
+// completion inside Run.
 func NewRoot(style Style, verbose, parallel bool) *RecT {
-	return &RecT{Name: "root", style: style, verbose: verbose, parallel: parallel, release: make(chan struct{})}
+	return &RecT{Name: "root", style: style, verbose: verbose, childParallel: parallel, release: make(chan struct{})}
 }
 
 func (t *RecT) Log(args ...any) {
@@ -98,7 +103,7 @@ func (t *RecT) Parallel() {
 }
 
 func (t *RecT) Run(name string, f func(testscript.T)) {
-	sub := &RecT{Name: name, style: t.style, verbose: t.verbose, parent: t}
+	sub := &RecT{Name: name, style: t.style, verbose: t.verbose, parent: t, parallel: t.childParallel, release: make(chan struct{})}
 	t.mu.Lock()
 	t.Subs = append(t.Subs, sub)
 	t.mu.Unlock()
